@@ -652,3 +652,27 @@ func (i *interpreter) monitorCopy(dst []value, n int) {
 func (i *interpreter) unsafeString(p *value, n int) value {
 	return normStr(append([]value{}, unsafe.Slice(p, n)...))
 }
+
+// mapHint handles a (possibly symbolic) make(map, hint): the hint never
+// panics in Go (negative or huge hints are ignored) but a hint that is
+// honoured allocates in proportion, which the allocation monitor checks.
+func (i *interpreter) mapHint(x value, site string) int64 {
+	s, ok := x.(sym)
+	if !ok {
+		h := asInt64(x)
+		if h > 0 {
+			i.allocNote(site, h*16)
+		}
+		return 0
+	}
+	if b := i.jb.allocBudget; b > 0 {
+		w := kindWidth(s.k)
+		// honoured hints are 0 < h < 2^40 or so; above the budget is an event
+		over := fmt.Sprintf("(and (bvsgt %s %s) (bvslt %s %s))", s.t, bvLit(uint64(b/16), w), s.t, bvLit(uint64(1)<<44, w))
+		if w >= 48 && i.decide(over, site+":maphint") {
+			i.allocEvent(site, b+1)
+			panic(engineAbort{kind: abortDone, msg: "map hint above budget"})
+		}
+	}
+	return 0
+}
